@@ -1,4 +1,4 @@
-"""CVC negative-control self test:  python3-vt -m engine.cvc.selftest [C19 C07 C20 C08] [--mutants]
+"""CVC self test:  python3-vt -m engine.cvc.selftest [C19 C07 C20 C08] [--fuzz] [--mutants]
 
 1. wrong post-conditions: each property part lists deliberately wrong variants of its contracts
    (`WRONG_POSTS = [(label, build(run), expected failing clause substring)]`); every one must be REFUTED
@@ -50,7 +50,9 @@ def mutants(pid):
             t0 = time.time()
             r = subprocess.run([sys.executable, "-m", "engine.cli", getattr(mod, "CHECK_ID", "cparts." + pid)], cwd=core.VERIF, env=env,
                                capture_output=True, text=True)
-            viol = [l for l in r.stdout.splitlines() if l.startswith("VIOLATION") and "no-failing-input-found" not in l]
+            base = getattr(mod, "BASELINE_VIOLATIONS", ())      # obligations that already fail on the unchanged tree (reported findings)
+            viol = [l for l in r.stdout.splitlines() if l.startswith("VIOLATION") and "no-failing-input-found" not in l
+                    and not any(b in l for b in base)]
             hit = [l for l in viol if expect.replace("/", "_").replace("[", "_") in l or expect in l]
             good = r.returncode == 1 and bool(hit)
             ok = ok and good
@@ -64,6 +66,26 @@ def mutants(pid):
     return ok
 
 
+def fuzz(pid, seed):
+    """positive control of the replay machinery: on the unchanged tree the real code agrees with the oracle on seeded
+    random inputs (no false alarm from harness, oracle or witness plumbing)"""
+    mod = importlib.import_module("props.cparts.%s" % pid)
+    t0 = time.time()
+    if hasattr(mod, "FUZZ_NATIVE"):
+        r = mod.FUZZ_NATIVE(seed)
+        print("fuzz %-6s native search: %s  %.0fs" % (pid, "agree" if r is None else "DIFFER %r" % (r,), time.time() - t0))
+        return r is None
+    bad = []
+    n = 0
+    for inp in getattr(mod, "FUZZ", lambda s: [])(seed):
+        n += 1
+        res = mod.replay_c({"inputs": inp})
+        if res.get("confirmed") or res.get("error"):
+            bad.append((inp, res))
+    print("fuzz %-6s %d native replays on random inputs: %s  %.0fs" % (pid, n, "all agree with the oracle" if not bad else "DIFFER %r" % bad[:2], time.time() - t0))
+    return not bad
+
+
 def main(argv):
     pids = [a for a in argv if not a.startswith("--")] or ["C19", "C07", "C20", "C08"]
     ok = True
@@ -73,6 +95,8 @@ def main(argv):
         except ImportError:
             continue
         ok = wrong_posts(pid) and ok
+        if "--fuzz" in argv:
+            ok = fuzz(pid, int(os.environ.get("VERIF_SEED", "0") or 0)) and ok
         if "--mutants" in argv:
             ok = mutants(pid) and ok
     print("selftest:", "ok" if ok else "FAILED")
